@@ -3,6 +3,7 @@ from __future__ import annotations
 
 import ast
 import functools
+import os
 import token as _token
 
 from . import gramir, pyir
@@ -43,10 +44,66 @@ def p_token_names() -> frozenset[str]:
     return frozenset(_token.tok_name.values()) | {"SOFT_KEYWORD", "FSTRING_START", "FSTRING_MIDDLE", "FSTRING_END"}
 
 
+REF_RULES = os.path.join(os.path.dirname(os.path.dirname(os.path.abspath(__file__))), "oracle", "xonsh_rule_sigs.json")
+
+
+def _sig_key(g, name: str, ren: dict) -> str:
+    from . import cpygram
+
+    def rn(sig):
+        if isinstance(sig, tuple):
+            if len(sig) == 2 and sig[0] == "ref" and isinstance(sig[1], str):
+                return ("ref", ren.get(sig[1], sig[1]))
+            return tuple(rn(x) for x in sig)
+        if isinstance(sig, list):
+            return [rn(x) for x in sig]
+        return sig
+    return repr(rn(cpygram.rule_sig(g.rules[name])))
+
+
+def restore_rule_names(g):
+    """A grammar rule given a new name everywhere is the same rule: a rule of the reference tree (oracle/xonsh_rule_sigs.json,
+    name -> structure, written by tools/mkrefnames.py) that is missing is looked for among the rules the reference tree does not
+    have, by structure with the new name read as the old one; a unique match gets its old name back (definition and references).
+    What the renamed rule *does* is then judged by the rules as for any other edit."""
+    import json
+    if not os.path.exists(REF_RULES):
+        return g
+    ref = json.load(open(REF_RULES))
+    missing = [n for n in ref if n not in g.rules]
+    fresh = [n for n in g.rules if n not in ref and not g.rules[n].helper]
+    if not missing or not fresh:
+        return g
+    ren: dict[str, str] = {}
+    for m in missing:
+        cands = [n for n in fresh if n not in ren and _sig_key(g, n, {n: m}) == ref[m]]
+        if len(cands) == 1:
+            ren[cands[0]] = m
+    if not ren:
+        return g
+    from .ir import Ref, walk_alt_items
+    for new, old in ren.items():
+        r = g.rules.pop(new)
+        r.name = old
+        g.rules[old] = r
+    for coll in (g.rules, g.helpers):
+        for r in coll.values():
+            for a in r.alts:
+                for it in walk_alt_items(a):
+                    if isinstance(it, Ref) and it.name in ren:
+                        it.name = ren[it.name]
+                if a.action is not None:
+                    for n in ast.walk(a.action):
+                        if isinstance(n, ast.Attribute) and n.attr in ren and isinstance(n.value, ast.Name) and n.value.id == "self":
+                            n.attr = ren[n.attr]
+    g.metas["renamed_rules"] = dict(ren)
+    return g
+
+
 @functools.lru_cache(None)
 def gram_x():
     read_src(GRAM_X)
-    return gramir.read_grammar(rpath(GRAM_X), GRAM_X, set(x_token_names()))
+    return restore_rule_names(gramir.read_grammar(rpath(GRAM_X), GRAM_X, set(x_token_names())))
 
 
 @functools.lru_cache(None)
@@ -58,7 +115,7 @@ def gram_p():
 @functools.lru_cache(None)
 def py_x():
     read_src(PARSER_X)
-    return pyir.decompile(rpath(PARSER_X), PARSER_X, "X")
+    return restore_rule_names(pyir.decompile(rpath(PARSER_X), PARSER_X, "X"))
 
 
 @functools.lru_cache(None)
